@@ -828,7 +828,15 @@ func genC04(r *simrt.Rand, tier string) any {
 	n := 12 + r.Int(25)
 	for i := 0; i < n; i++ {
 		any := sh.handleOf("")
-		switch r.Pick([]int{20, 15, 10, 10, 10, 10, 8, 8, 5, 4}) {
+		switch r.Pick([]int{20, 15, 10, 10, 10, 10, 8, 8, 5, 4, 8}) {
+		case 10: // SETATTR with a size (and sometimes a mode) on anything, symbolic links included
+			sz := uint64([]int{0, 1, 2, 7, 100, 300}[r.Int(6)])
+			op := Op{Op: "SETATTR", H: any, SA: SA{Size: &sz}}
+			if r.Pct(30) {
+				m := uint32(r.Int(0o1000))
+				op.SA.Mode = &m
+			}
+			sc.Ops = append(sc.Ops, op)
 		case 0: // SETATTR with arbitrary mode bits on anything
 			m := uint32(r.Int(0o10000))
 			if r.Pct(20) {
